@@ -35,6 +35,9 @@ pub struct GenCfg {
     /// command tasks may await requests made through the old capability API
     #[serde(default)]
     pub cap_in_cmd: bool,
+    /// tasks may emit long bursts of events within one poll
+    #[serde(default)]
+    pub bursts: bool,
 }
 
 impl GenCfg {
@@ -61,6 +64,7 @@ impl GenCfg {
             render: rng.chance(1, 3),
             channels: rng.chance(1, 3),
             cap_in_cmd: false,
+            bursts: rng.chance(1, 6),
         }
     }
 }
@@ -78,6 +82,8 @@ pub struct ProgGen<'a> {
     /// abort handles generated so far in this program (enclosing commands first)
     pub handles_so_far: Vec<u32>,
     pub next_chan: u32,
+    /// long bursts are few per program (each one is tens of events to apply)
+    pub bursts_left: u32,
 }
 
 impl<'a> ProgGen<'a> {
@@ -94,6 +100,7 @@ impl<'a> ProgGen<'a> {
             budget: 40,
             handles_so_far: vec![],
             next_chan: 0,
+            bursts_left: 2,
         }
     }
 
@@ -271,9 +278,16 @@ impl<'a> ProgGen<'a> {
                     opts.push((3, 6));
                 }
             }
+            if self.cfg.bursts && self.bursts_left > 0 {
+                opts.push((1, 14));
+            }
             let w: Vec<u64> = opts.iter().map(|o| o.0).collect();
             let pick = opts[self.rng.weighted(&w)].1;
             let st = match pick {
+                14 => {
+                    self.bursts_left -= 1;
+                    Stmt::Burst { n: self.rng.range(20, 90) as u8, tag: self.tag() }
+                }
                 0 => {
                     slots.iter_mut().for_each(|s| s.1 = true);
                     if !legacy && self.cfg.cap_in_cmd && self.rng.chance(1, 2) {
@@ -390,6 +404,8 @@ pub enum Action {
     Event(Event),
     Resolve { site: u32, arg: u64, v: u64 },
     Drop { site: u32, arg: u64 },
+    /// bridge hosts: an item for a live stream whose bytes do not decode (must be rejected and change nothing)
+    BadItem { site: u32, arg: u64 },
     /// Direct hosts: drop the command value
     DropRoot(RootId),
     /// drop the whole core / every command
@@ -405,6 +421,7 @@ impl Action {
             Action::Event(Event::Emitted(_)) => "emitted",
             Action::Resolve { .. } => "resolve",
             Action::Drop { .. } => "drop",
+            Action::BadItem { .. } => "bad_item",
             Action::DropRoot(_) => "drop_cmd",
             Action::DropAll => "drop_core",
         }
@@ -418,6 +435,8 @@ pub struct ScriptCfg {
     pub drops: bool,
     /// bridge hosts: abandon one-shot requests by answering them with bytes that do not decode
     pub bridge_drops: bool,
+    /// bridge hosts: now and then an item that does not decode is sent to a live stream
+    pub bad_items: bool,
     pub dups: bool,
     pub aborts: bool,
     pub noops: bool,
@@ -547,6 +566,9 @@ pub fn gen_script(rng: &mut Rng, programs: Vec<Cmd>, host: HostSel, sc: &ScriptC
             if can_drop && !droppable.is_empty() {
                 opts.push((8, 3));
             }
+            if host.is_bridge() && sc.bad_items && !many_live.is_empty() {
+                opts.push((2, 9));
+            }
             if sc.dups && !dup.is_empty() && !host.is_bridge() {
                 opts.push((3, 4));
             }
@@ -615,6 +637,10 @@ pub fn gen_script(rng: &mut Rng, programs: Vec<Cmd>, host: HostSel, sc: &ScriptC
                 }
                 6 => Action::Event(Event::Noop),
                 7 => Action::DropRoot(live_roots[rng.usize_below(live_roots.len())].clone()),
+                9 => {
+                    let k = choose(rng, &many_live);
+                    Action::BadItem { site: k.0, arg: k.1 }
+                }
                 _ => {
                     dropped_all = true;
                     Action::DropAll
@@ -706,6 +732,7 @@ pub fn apply_to_model(m: &mut Model, act: &Action) {
             m.resolve((*site, *arg), *v);
         }
         Action::Drop { site, arg } => m.drop_req((*site, *arg)),
+        Action::BadItem { .. } => {}
         Action::DropRoot(id) => m.drop_root(id),
         Action::DropAll => m.drop_all(),
     }
